@@ -137,6 +137,11 @@ def build(engine):
 
 
 WHAT = {
+    'http_conform': 'BOUNDED (executed, not proved): the real HTTP client (real reqwest) against a protocol-conformant sync server written in the harness '
+                    '(docs/src/http.md) on a loopback socket, two client handles, every call sequence within the bound: results follow the version-chain '
+                    'contract with the server\'s chain as ghost state (a request reported as rejected was not stored; a lost response is an error, not a '
+                    'silent second request); every request carries X-Client-Id and the documented content type; every body received has the documented '
+                    'sealed form and no payload bytes in clear; modified, truncated, re-labelled or swapped responses are rejected with an error',
     'server_conform:git-seal': 'BOUNDED (executed, not proved): the git-backed server stores versions and snapshots only in the documented sealed form (format byte 1, '
                                'fresh 12-byte nonce, payload + 16-byte tag; base64 inside the snapshot file), no task content appears in any file of the repository, '
                                'and every single-bit modification of every byte, every truncation, re-labelled versions and snapshots, foreign sealed data and a '
@@ -243,7 +248,8 @@ def run(h, prop, tier):
             m = json.load(open(f))
         except (OSError, ValueError):
             m = {}
-        kind = (m.get('scenario') or {}).get('kind', '')
+        sc_ = m.get('scenario')
+        kind = sc_.get('kind', '') if isinstance(sc_, dict) else ''
         out['violations'].append({'engine': engine, 'mode': h.get('mode'), 'harness': out['harness'] + ('-' + kind if kind and engine == 'server_conform' else ''),
                                   'counterexample': m.get('scenario'), 'at': m.get('at'), 'scenario': m.get('scenario'),
                                   'observed': {k: m.get(k) for k in ('sqlite', 'inmemory', 'got', 'expected') if k in m},
